@@ -1,14 +1,29 @@
-import VermouthModel.C10
+import VermouthModel.C10_System
+import VermouthModel.C10_Cli
 import Generated.C10Radii
+import Generated.C10Search
+import Generated.C10Cli
 open Proto C10
+
+/-- atom name token: `-` = no 'atomname' attribute, `0` = the attribute is there with value None -/
+def nameOfTok : Tok → Option (Option String × Bool)
+  | Tok.none => some (none, false)
+  | Tok.int 0 => some (none, true)
+  | Tok.str s => some (some s, false)
+  | _ => none
 
 def atomOf (t : Tok) : Option InAtom := do
   match ← t.list? with
   | [sm, ss, ch, ri, rn, ic, nm, el, x, y, z] =>
+    let (name, nameNone) ← nameOfTok nm
+    let xo ← x.optInt?
+    let yo ← y.optInt?
+    let zo ← z.optInt?
     pure { staleMol := (← sm.optInt?).map Int.toNat, staleSerial := (← ss.optInt?).map Int.toNat,
            chain := ← ch.optStr?, resid := ← ri.optInt?, resname := ← rn.optStr?,
-           icode := ← ic.optStr?, name := ← nm.optStr?, element := ← el.optStr?,
-           x := ← x.int?, y := ← y.int?, z := ← z.int? }
+           icode := ← ic.optStr?, name := name, element := ← el.optStr?,
+           x := xo.getD 0, y := yo.getD 0, z := zo.getD 0,
+           nameNone := nameNone, hasPos := xo.isSome && yo.isSome && zo.isSome }
   | _ => none
 
 def edgeOf (t : Tok) : Option Edge := do
@@ -16,20 +31,20 @@ def edgeOf (t : Tok) : Option Edge := do
   | [a, b] => pure (← a.nat?, ← b.nat?)
   | _ => none
 
-/-- an input edge `[u v]` or `[u v 1]` (1 = it already carries a 'distance' attribute) -/
-def inEdgeOf (t : Tok) : Option (Edge × Bool) := do
+/-- an input edge `[u v]` or `[u v f]` (f: 0 = no 'distance' attribute, 1 = the exact distance, 2 = nan) -/
+def inEdgeOf (t : Tok) : Option (Edge × Nat) := do
   match ← t.list? with
-  | [a, b] => pure ((← a.nat?, ← b.nat?), false)
-  | [a, b, d] => pure ((← a.nat?, ← b.nat?), (← d.nat?) != 0)
+  | [a, b] => pure ((← a.nat?, ← b.nat?), 0)
+  | [a, b, d] => pure ((← a.nat?, ← b.nat?), ← d.nat?)
   | _ => none
 
-/-- an input molecule; second component: the same molecule with only the edges that carry a distance -/
-def molOf (t : Tok) : Option (InMol × InMol) := do
+/-- an input molecule and the distance flags of its edges -/
+def molOfTok (t : Tok) : Option (InMol × List (Edge × Nat)) := do
   match ← t.list? with
   | [atoms, edges] =>
     let as ← (← atoms.list?).mapM atomOf
     let es ← (← edges.list?).mapM inEdgeOf
-    pure ({ atoms := as, edges := es.map (·.1) }, { atoms := as, edges := (es.filter (·.2)).map (·.1) })
+    pure ({ atoms := as, edges := es.map (·.1) }, es)
   | _ => none
 
 def blockOf (t : Tok) : Option (String × Block) := do
@@ -38,19 +53,32 @@ def blockOf (t : Tok) : Option (String × Block) := do
     pure (← n.str?, { names := ← strs? names, edges := ← (← edges.list?).mapM edgeOf })
   | _ => none
 
-def labelOf (mols : List (List Nat)) (i : Nat) : Nat :=
-  match mols.find? (fun p => p.contains i) with
-  | some p => p.foldl min i
-  | none => i
+/-- flags of the input edges on union node keys (as `unionFrom` shifts them); a later duplicate wins
+(`add_edge` on an existing edge updates its attributes) -/
+def unionFlags : Nat → List (InMol × List (Edge × Nat)) → List (Edge × Nat)
+  | _, [] => []
+  | off, m :: ms => m.2.map (fun e => ((e.1.1 + off, e.1.2 + off), e.2)) ++ unionFlags (off + m.1.atoms.length) ms
 
-def render (S : Sys) (preD : List Edge) (R : Result) : String :=
+def preAttr (S : Sys) (flags : List (Edge × Nat)) (u v : Nat) : DAttr :=
+  match flags.reverse.find? (fun e => (e.1.1 == u && e.1.2 == v) || (e.1.1 == v && e.1.2 == u)) with
+  | some (_, 1) => geomAttr S u v
+  | some (_, 2) => DAttr.nan
+  | _ => DAttr.absent
+
+def encAttr (u v : Nat) : DAttr → String
+  | DAttr.absent => encList [encNat u, encNat v, "1"]
+  | DAttr.sq d => encList [encNat u, encNat v, "2", encNat d]
+  | DAttr.nan => encList [encNat u, encNat v, "3"]
+
+def render (S : Sys) (flags : List (Edge × Nat)) (R : Result) : String :=
   let n := S.atoms.length
   let es := (allPairs n).filterMap fun e =>
-    if R.bonded S e.1 e.2 then
-      some (encList [encNat e.1, encNat e.2, if R.hasDistance e.1 e.2 || has preD e.1 e.2 then "2" else "1"])
-    else none
+    if R.bonded S e.1 e.2 then some (encAttr e.1 e.2 (distanceAttr S R (preAttr S flags) e.1 e.2)) else none
+  let loops := (List.range n).filterMap fun i =>
+    if has S.pre i i then some (encAttr i i (preAttr S flags i i)) else none
+  let ms := (orderedMols n R.mols).map fun m => encList (m.map encNat)
   let count := (R.mols.map List.length).sum
-  "E " ++ encList es ++ " L " ++ encList ((List.range n).map fun i => encNat (labelOf R.mols i))
+  "E " ++ encList (es ++ loops) ++ " M " ++ encList ms
     ++ " S " ++ encList ((List.range n).map fun i => encNat (serial S.atoms i))
     ++ " N " ++ encNat count
 
@@ -58,10 +86,18 @@ def handle (_ : Unit) (toks : List Tok) : Unit × String :=
   let r : Option String :=
     match toks with
     | [Tok.str "run", mols, ff, an, ad, p, q] => do
-        let ms ← (← mols.list?).mapM molOf
+        let ms ← (← mols.list?).mapM molOfTok
         let ff ← (← ff.list?).mapM blockOf
-        let S := sysOf (ms.map (·.1)) ff vdwRadii ((← an.nat?) != 0) ((← ad.nat?) != 0) (← p.nat?) (← q.nat?)
-        pure (render S (unionFrom 0 0 (ms.map (·.2))).2 (run S))
+        match runSystem searchSpec (ms.map (·.1)) ff vdwRadii ((← an.nat?) != 0) ((← ad.nat?) != 0) (← p.nat?) (← q.nat?) with
+        | Outcome.unchanged => pure "unchanged"
+        | Outcome.keyErrorPosition => pure "error:KeyError:position"
+        | Outcome.ok S R => pure (render S (unionFlags 0 ms) R)
+    | [Tok.str "cli", opt, fudge] => do
+        -- `-bonds-from opt -bonds-fudge fudge` (`-` = option not given) -> arguments of MakeBonds
+        match cliModes cliTable (← opt.optStr?), cliFudge cliTable (← fudge.optStr?) with
+        | none, _ => pure "rejected"
+        | some _, none => pure "fudge-not-modelled"
+        | some (an, ad), some (p, q) => pure (encList [encBool an, encBool ad, encNat p, encNat q])
     | _ => none
   ((), r.getD "bad-op")
 
